@@ -1,13 +1,22 @@
 """C01 — a future is resolved exactly once, by exactly one winner (future.h, awaiter.h)."""
 from props import cellcommon
-RULE = ("controlled schedules (real threads, one runnable at a time, yield at every COCLS_VERIF_POINT) of 2-4 competing "
-        "resolvers (value / exception / drop / move-then-destroy) plus the final destructor of the shared promise against 0-2 waiters, "
-        "for value types int, void, unique_ptr<int>, long&, instance-counted; random, bursty and last-first schedules; thorough adds every "
-        "schedule prefix of length 7; non-trivial = at least 3 thread switches in the executed trace; distinct = distinct (threads, schedule)")
-SCOPE = "promise::claim/set_value/set_exception/drop/~promise/move ctor, future::set/resolve/value, awaiter::resume_chain_set_ready/resume_chain_lk/subscribe_check_ready, co_awaiter sync/await_*"
+RULE = ("part ctl_cell: controlled schedules (real threads, one runnable at a time, yield at every COCLS_VERIF_POINT) of 2-4 competing "
+        "resolvers (value / exception / drop / move-then-destroy / async coroutine completion) plus the final destructor of the shared promise "
+        "against 0-2 waiters, for value types int, void, unique_ptr<int>, long&, instance-counted; random, bursty and last-first schedules; thorough adds "
+        "every schedule prefix of length 7; non-trivial = at least 3 thread switches in the executed trace. "
+        "part seq_prom: op sequences (4-20 ops + 8% malformed) over 4 promise objects, 2 bind closures and 3 futures: get_promise, move construction, "
+        "move assignment onto live / empty targets from live / empty / moved-from sources and from a temporary, self assignment, value / exception / "
+        "explicit drop calls incl. through empty and moved-from promises, bind + call twice + drop of the closure, destruction, callback and coroutine "
+        "waiters parked on the futures, state queries; thorough adds the 3x3 target/source state matrix x waiter kind x 6 follow-up ops; "
+        "non-trivial = a move operation was accepted and some future was resolved; distinct = distinct (engine, ops)")
+SCOPE = ("promise::claim/set_value/set_exception/drop/~promise/move ctor/operator=(promise&&)/operator bool/bind, future::get_promise/set/resolve/value/"
+         "pending/initialized, awaiter::resume_chain_set_ready/resume_chain_lk/subscribe_check_ready, co_awaiter sync/await_*")
 ASSUMPTIONS = ["the destructor of the shared promise object runs after every call on that object has returned (C++ object lifetime)",
-               "interleaving at the granularity of the hook points (each atomic operation on promise::_owner / future::_awaiter is its own step); sequentially consistent"]
+               "interleaving at the granularity of the hook points (each atomic operation on promise::_owner / future::_awaiter is its own step); sequentially consistent",
+               "promise-object operations (move assignment / construction / bind) are modelled sequentially over several futures (PromDefs.v); their interleaving with calls on the same object is covered only through the per-future claim protocol of CellDefs.v (kinds move-then-destroy, drop)"]
 def gen(seed, tier): return cellcommon.gen(seed, tier, "resolvers")
+def gen_prom(seed, tier): return cellcommon.gen_prom(seed, tier)
 nontrivial = cellcommon.nontrivial
 signature = cellcommon.signature
-PARTS = [{"name": "ctl_cell", "harness": "ctl_cell.cpp", "gen": gen, "no_shrink": False, "timeout_case": 10}]
+PARTS = [{"name": "ctl_cell", "harness": "ctl_cell.cpp", "gen": gen, "no_shrink": False, "timeout_case": 10},
+         {"name": "seq_prom", "harness": "seq_prom.cpp", "gen": gen_prom, "no_shrink": False, "timeout_case": 10}]
